@@ -864,7 +864,21 @@ def binop(a, b, name, out_dtype=None):
     if out_dtype is not None:
         d = out_dtype
     res = _cast_arr(res, d)
+    if RESIDUE[0] and name == "sub" and d.kind == "f" and isinstance(res, rnp.ndarray):
+        # rounding-residue mode: a float array subtraction (marginal differencing) is exact up to a bounded,
+        # solver-chosen perturbation of each element
+        eng = E()
+        eps = z3.RealVal(RESIDUE[0])
+
+        def perturb(v):
+            r = z3.Real(S.fresh_name("residue"))
+            eng.assume(r >= -eps, r <= eps)
+            return e_add(v, SReal(r, False, False))
+        res = _f(perturb, 1, 1)(res)
     return wrap_result(res, d, n)
+
+
+RESIDUE = [None]      # None, or the absolute residue bound as a string such as "1e-12"
 
 
 def reduce_(a, kind, axis=None, dtype=None, keepdims=False):
